@@ -307,11 +307,13 @@ func hC06Route() {
 			raw = append(raw, lits[verifChoose("lit", len(lits))]...)
 			continue
 		}
-		kinds := 3
+		kinds := 4
 		if verifTier() == 0 {
-			kinds = 2
+			kinds = 3
 		}
 		switch verifChoose("segKind", kinds) {
+		case 2:
+			// an empty segment ("//"): nothing is appended
 		case 0:
 			raw = append(raw, nondetBytes("seg", 1)...)
 		case 1:
